@@ -1,0 +1,22 @@
+//go:build verif
+
+package peer
+
+import "github.com/honeycombio/refinery/generics"
+
+// Verification harness exports (compiled only with -tags verif): the peer message codec and the
+// TTL map of a RedisPubsubPeers (so the harness can put it on the fake clock).
+
+func VerifC18Marshal(action, address, id string) string {
+	return newPeerCommand(peerAction(action), address, id).marshal()
+}
+
+func VerifC18Unmarshal(msg string) (ok bool, action, address, id string) {
+	cmd := &peerCommand{}
+	ok = cmd.unmarshal(msg)
+	return ok, string(cmd.action), cmd.address, cmd.id
+}
+
+func (p *RedisPubsubPeers) VerifC18PeersMap() *generics.MapWithTTL[string, string] {
+	return p.peers
+}
